@@ -645,4 +645,55 @@ theorem replaceScans_eq (cs : CaseMode) (s pat to : List Nat) (hs64 : s.length <
     simp only [Outcome.bind]
     rw [if_neg (by omega), if_neg (by omega)]
 
+/-! ### fuel independence, case folding -/
+
+/-- the fuel of the specified split is never exhausted: any two sufficient fuels give the same pieces -/
+theorem splitAux_fuel (cs : CaseMode) (sep : List Nat) (f1 f2 max : Nat) (s : List Nat)
+    (h1 : s.length < f1) (h2 : s.length < f2) : splitAux cs sep f1 max s = splitAux cs sep f2 max s := by
+  induction f1 generalizing f2 max s with
+  | zero => omega
+  | succ f1 ih =>
+    cases f2 with
+    | zero => omega
+    | succ f2 =>
+      by_cases hm : max = 0
+      · rw [splitAux_miss cs sep f1 max s (Or.inl hm), splitAux_miss cs sep f2 max s (Or.inl hm)]
+      · cases h : firstOcc cs s sep with
+        | none => rw [splitAux_miss cs sep f1 max s (Or.inr h), splitAux_miss cs sep f2 max s (Or.inr h)]
+        | some i =>
+          obtain ⟨hpos, hle⟩ := firstOcc_bound h
+          rw [splitAux_hit cs sep f1 max s i hm h, splitAux_hit cs sep f2 max s i hm h,
+            ih f2 (max - 1) _ (by simp; omega) (by simp; omega)]
+
+/-- the insensitive search is the sensitive search on the ASCII-folded text and separator -/
+theorem firstOcc_fold (s sep : List Nat) :
+    firstOcc .insensitive s sep = firstOcc .sensitive (s.map foldAscii) (sep.map foldAscii) := by
+  unfold firstOcc
+  have e : (fun i => decide (occursAt .insensitive s sep i)) =
+      (fun i => decide (occursAt .sensitive (s.map foldAscii) (sep.map foldAscii) i)) :=
+    funext fun i => decide_eq_decide.2 (StVerif.Lemmas.SearchSpec.occursAt_fold s sep i)
+  rw [e, List.length_map]
+  by_cases h : sep = []
+  · rw [if_pos h, if_pos (by rw [h]; rfl)]
+  · rw [if_neg h, if_neg (by intro h2; exact h (List.map_eq_nil_iff.1 h2))]
+
+/-- case-insensitive matching folds ASCII letters only: the insensitive split cuts where the
+    sensitive split of the folded text by the folded separator cuts -/
+theorem splitAux_fold (sep : List Nat) (fuel max : Nat) (s : List Nat) :
+    (splitAux .insensitive sep fuel max s).map (·.map foldAscii) =
+      splitAux .sensitive (sep.map foldAscii) fuel max (s.map foldAscii) := by
+  induction fuel generalizing max s with
+  | zero => simp [splitAux]
+  | succ f ih =>
+    by_cases hm : max = 0
+    · rw [splitAux_miss _ _ f max s (Or.inl hm), splitAux_miss _ _ f max _ (Or.inl hm)]; rfl
+    · cases h : firstOcc .insensitive s sep with
+      | none =>
+        have h' := h; rw [firstOcc_fold] at h'
+        rw [splitAux_miss _ _ f max s (Or.inr h), splitAux_miss _ _ f max _ (Or.inr h')]; rfl
+      | some i =>
+        have h' := h; rw [firstOcc_fold] at h'
+        rw [splitAux_hit _ _ f max s i hm h, splitAux_hit _ _ f max _ i hm h', List.map_cons, ih,
+          List.map_take, List.map_drop, List.length_map]
+
 end StVerif.Lemmas.Split
